@@ -342,6 +342,10 @@ def run(ctx):
                     continue
                 elif op == "todict":
                     d = t.todict()
+                    if n == 0:
+                        # a table without rows: every column of the dict is empty
+                        lens_ = {k_: len(v_) for k_, v_ in d.items()}
+                        ctx.check(opkey, all(l_ == 0 for l_ in lens_.values()), "%s/todict-of-an-empty-table-has-rows" % opkey, "todict() of a table without rows has column lengths %r" % lens_, wit, None)
                     back = cls.from_dict(d) if n else None
                     if back is None:
                         continue
@@ -350,6 +354,8 @@ def run(ctx):
                     continue
                 elif op == "pandas":
                     if n == 0:
+                        df0 = t.topandas()          # an empty frame with the table's columns, not an error
+                        ctx.check(opkey, len(df0) == 0, "%s/topandas-of-an-empty-table" % opkey, "topandas() of a table without rows has %d rows" % len(df0), wit, None)
                         continue
                     df = t.topandas()
                     ctx.check(opkey, len(df) == n, "%s/topandas-length" % opkey, "topandas has %d rows for %d entries" % (len(df), n), wit, nt)
@@ -422,6 +428,37 @@ def run(ctx):
                 ctx.check("construct-converts", got == [text, text[:1]], "construct/pre-encoded-column-relabelled", "DNA column built from %s-encoded %r reads %r" % (src_name, [text, text[:1]], got), {"source_encoding": src_name, "text": text, "got": got}, ("pre", src_name, text))
             except Exception:
                 ctx.judged("construct-raises", ("pre", src_name, text))
+        # rows taken from tables whose text columns are held in different alphabets, joined into one table through entry tuples: the texts, or a refusal
+        for enc_a, enc_b in (("ACGTEncoding", "ACUGEncoding"), ("ACGTEncoding", "ACTGEncoding"), ("ACTGEncoding", "ACGTEncoding"), ("ACGTEncoding", None)):
+            a_rows = bnp.as_encoded_array(["ACGT", "GGT"], getattr(ae, enc_a))
+            b_texts = ["ACGU", "UU"] if enc_b == "ACUGEncoding" else ["GTTA", "TG"]
+            b_rows = bnp.as_encoded_array(b_texts, getattr(ae, enc_b)) if enc_b else bnp.as_encoded_array(b_texts)
+            for order in ("a-b-a", "a-b", "b-a-a"):
+                rows_ = {"a-b-a": [a_rows[0], b_rows[0], a_rows[1]], "a-b": [a_rows[0], b_rows[1]], "b-a-a": [b_rows[0], a_rows[0], a_rows[1]]}[order]
+                want_ = {"a-b-a": ["ACGT", b_texts[0], "GGT"], "a-b": ["ACGT", b_texts[1]], "b-a-a": [b_texts[0], "ACGT", "GGT"]}[order]
+                try:
+                    tt = dt.SequenceEntry.from_entry_tuples([("n%d" % i, row) for i, row in enumerate(rows_)])
+                    got_ = [str(x) for x in tt.sequence.tolist()]
+                except Exception:
+                    ctx.judged("construct-raises", ("mixed-rows", enc_a, enc_b, order))
+                    continue
+                ctx.check("construct-converts", got_ == want_, "construct/rows-of-two-alphabets-joined-code-by-code", "SequenceEntry.from_entry_tuples with rows in %s and %s (%s) reads %r, the rows say %r" % (enc_a, enc_b or "plain text", order, got_, want_),
+                          {"encodings": [enc_a, enc_b], "order": order, "got": got_, "expected": want_}, ("mixed-rows", enc_a, enc_b, order))
+        # add_fields without a type map: the new column gets one declared type, and every value of a long column is of that type (or the call refuses)
+        base = dt.Interval(["c"] * 150, np.arange(150), np.arange(150) + 1)
+        for odd_at, odd in ((120, 1.5), (149, "x"), (100, 2.5), (3, 1.5)):
+            vals_ = [1] * 150
+            vals_[odd_at] = odd
+            try:
+                res_ = base.add_fields({"extra": list(vals_)})
+            except Exception:
+                ctx.judged("construct-raises", ("add_fields-mixed", odd_at))
+                continue
+            declared = {f.name: f.type for f in dataclasses.fields(res_)}["extra"]
+            col = np.asarray(res_.extra)
+            ok_ = (declared is int and col.dtype.kind in "iu") or (declared is float and col.dtype.kind == "f" and col.tolist() == [float(v) for v in vals_]) or (declared not in (int, float))
+            ctx.check("construct-converts", ok_, "add_fields/column-of-another-type-than-declared", "add_fields with %r at row %d: the column is declared %r and holds dtype %s" % (odd, odd_at, declared, col.dtype),
+                      {"odd_value": str(odd), "row": odd_at, "declared": str(declared), "dtype": str(col.dtype)}, ("add_fields-mixed", odd_at))
         try:
             Mixed(["x"], ["i"], [1], [1.0], [True], [2], [[1, 2]], ["ACGX"])
             ctx.check("construct-raises", False, "construct/invalid-dna-accepted", "DNA column accepted 'ACGX'", {}, "dna")
